@@ -45,6 +45,41 @@ MUTANTS = {
         ("genome-marker-wrong-build", "aldy/sam.py", "            print(self.gene.genome, file=fd)", '            print("hg19", file=fd)'),
         ("dump-reader-drops-multiplicity", "aldy/sam.py", "        muts = {p: [q for q, n in c.items() for _ in range(n)] for p, c in muts.items()}", "        muts = {p: [q for q, n in c.items() for _ in range(min(n, 15))] for p, c in muts.items()}"),
     ],
+    "C06": [
+        ("softclip-consumes-reference", "aldy/sam.py", "            elif op == 4:  # Soft-clip\n                s_start += size", "            elif op == 4:  # Soft-clip\n                s_start += size\n                start += size"),
+        ("eq-x-ops-ignored", "aldy/sam.py", "            elif op in [0, 7, 8]:  # M, X and =", "            elif op in [0]:  # M, X and ="),
+        ("supplementary-not-skipped", "aldy/sam.py", "                if read.is_supplementary:  # avoid supplementary alignments\n                    continue", "                if False:\n                    continue"),
+        ("hardclip-not-skipped", "aldy/sam.py", '                if "H" in read.cigarstring:  # avoid hard-clipped reads\n                    continue', "                if False:\n                    continue"),
+        ("dedup-by-read-name", "aldy/sam.py", "                if not read.query_sequence:\n                    continue\n                # ensure", "                if not read.query_sequence:\n                    continue\n                if read.query_name in self.phases:\n                    continue\n                # ensure"),
+        ("mnp-first-base-also-reference", "aldy/sam.py", "                        if p:  # no idea why...", "                        if True:  # no idea why..."),
+        ("mapq-replaced-by-baseq", "aldy/sam.py", "                        norm[start + i].append((bin_quality(mq), bin_quality(q)))", "                        norm[start + i].append((bin_quality(q), bin_quality(q)))"),
+        ("bin-edge-shifted", "aldy/sam.py", "            if q < 10:\n                return 6", "            if q <= 10:\n                return 6"),
+        ("deletion-not-counted", "aldy/sam.py", '                    muts[start + i, "-"].append((bin_quality(mq), bin_quality(prev_q)))', "                    pass"),
+        ("phase-overwritten-by-reference", "aldy/sam.py", "                        if start + i in self.phaseable:\n                            phase[start + i] = mut[1]", "                        if start + i in self.phaseable:\n                            phase[start + i] = \"_\""),
+    ],
+    "C07": [
+        ("profile-halving-dropped", "aldy/coverage.py", "                p /= 2  # profile has 2 copies, so divide it with 2 for normalization", "                pass"),
+        ("region-bound-inclusive", "aldy/coverage.py", "                s = sum(self.total(i) for i in range(rng.start, rng.end))", "                s = sum(self.total(i) for i in range(rng.start, rng.end + 1))"),
+        ("neutral-counts-softclips", "aldy/sam.py", "                        if op in [0, 7, 8, 2]:\n                            for i in range(size):\n                                self._dump_cn[start + i] += 1", "                        if op in [0, 7, 8, 2, 4]:\n                            for i in range(size):\n                                self._dump_cn[start + i] += 1"),
+        ("neutral-guard-removed", "aldy/coverage.py", "        if sam_ref == 0:", "        if False:"),
+        ("neutral-depth-sqrt", "aldy/coverage.py", "        ratio = self.profile.neutral_value / sam_ref", "        ratio = self.profile.neutral_value / (sam_ref + 1)"),
+        ("profile-skips-deletions", "aldy/profile.py", "                            if op == 2:\n                                for i in range(size):\n                                    cov[c][start + i] += 1\n                                start += size", "                            if op == 2:\n                                start += size"),
+    ],
+    "C18": [
+        ("patch:own-c18-bool-parsing",),
+        ("values-kept-as-strings", "aldy/profile.py", "                            self.__dict__[n] = typ(v)", "                            self.__dict__[n] = v"),
+        ("precedence-reversed", "aldy/profile.py", '            **dict(prof.get("options", {}), **params),', '            **dict(params, **prof.get("options", {})),'),
+        ("options-dropped-on-write", "aldy/profile.py", '                d["options"][k] = v', "                pass"),
+        ("dash-not-normalised", "aldy/__main__.py", '                        params[k.replace("-", "_")] = v\n            _ = genotype(', '                        params[k] = v\n            _ = genotype('),
+    ],
+    "C19": [
+        ("patch:own-c19-guard-skipped-with-user-cn",),
+        ("patch:own-c19-simple-line-not-terminated",),
+        ("patch:own-c19-average-over-flanks",),
+        ("avg-depth-guard-removed", "aldy/genotype.py", "        if avg_cov < profile.min_avg_coverage:", "        if False:"),
+        ("oserror-swallowed", "aldy/sam.py", "            for read in iter:\n                if not read.cigartuples:  # only valid alignments", "            for read in _safe(iter):\n                if not read.cigartuples:  # only valid alignments"),
+        ("cn-low-depth-guard-removed", "aldy/cn.py", "        if total_cov < min_cov / 2.0:", "        if False:"),
+    ],
     "C14": [
         ("patch:own-c14-mutations-accessor",),
         ("patch:own-c14-minor-filter-closure",),
@@ -54,6 +89,17 @@ MUTANTS = {
          "key=lambda m: (m.score, m._solution_nice()),\n    )\n    log.debug(\"*\" * 80)\n\n    if multiple_warn_level >= 1"),
     ],
 }
+
+
+_SAFE = """
+
+def _safe(it):
+    try:
+        for x in it:
+            yield x
+    except (OSError, ValueError):
+        return
+"""
 
 
 def apply(copy, mut):
@@ -69,7 +115,10 @@ def apply(copy, mut):
     s = open(p).read()
     if old not in s:
         raise RuntimeError(f"mutant {name}: anchor not found in {path}")
-    open(p, "w").write(s.replace(old, new, 1))
+    s = s.replace(old, new, 1)
+    if "_safe(" in new:
+        s += _SAFE
+    open(p, "w").write(s)
 
 
 def main():
